@@ -27,6 +27,7 @@ CONSTANTS R,        \* number of input rows (ids 1..R)
           Sel,      \* set of selected row ids (the predicate pattern)
           Fail,     \* selected rows on which row_func raises: the worker reports it and STILL delivers the row (unchanged)
           FailAt    \* 0: the upstream iterator is healthy; k in 1..R+1: it raises when asked for its k-th item (R+1 = at exhaustion)
+ClosesIn == FALSE           \* cfg: ClosesIn <- SwallowsOn = the rejected design "release the pipe early" (a seeded change of round 8)
 SwallowUpstream == FALSE   \* cfg: SwallowUpstream <- SwallowsOn = the pinned tree (defect): the producer swallowed an upstream failure,
 SwallowsOn == TRUE         \*      only ended the collector's loop and never released the workers
 W == 1..N
@@ -49,33 +50,47 @@ VARIABLES nextIn,   \* next upstream row not yet taken
           qint,     \* q_internal (thread queue)
           delivered,\* sequence of row ids yielded downstream
           applied,  \* applied[r] = how often row_func ran on row r
-          perr      \* the producer thread has caught an upstream failure (it is re-raised by the collector after the joins)
-vars == <<nextIn, cphase, jw, pphase, pmark, pbuf, qin, wst, wrow, obuf, qout, fst, frow, fexp, qint, delivered, applied, perr>>
+          perr,     \* the producer thread has caught an upstream failure (it is re-raised by the collector after the joins)
+          nf,       \* the next worker process the collector forks (the start is NOT atomic: producer thread, then one fork per worker, then the fetcher thread)
+          inClosed  \* (rejected design ClosesIn) the parent's ends of the q_in pipe are closed: a worker forked now inherits dead handles
+vars == <<nextIn, cphase, jw, pphase, pmark, pbuf, qin, wst, wrow, obuf, qout, fst, frow, fexp, qint, delivered, applied, perr, nf, inClosed>>
 
 Init == /\ nextIn = 1 /\ cphase = "peek" /\ jw = 1
         /\ pphase = "off" /\ pmark = 0 /\ pbuf = <<>> /\ qin = <<>>
         /\ wst = [w \in W |-> "off"] /\ wrow = [w \in W |-> 0] /\ obuf = [w \in W |-> <<>>] /\ qout = <<>>
         /\ fst = "off" /\ frow = 0 /\ fexp = N /\ qint = <<>>
         /\ delivered = <<>> /\ applied = [r \in 1..R |-> 0] /\ perr = FALSE
+        /\ nf = 1 /\ inClosed = FALSE
 
 \* ---- collector before the lazy start ----
 CPeekYield == /\ cphase = "peek" /\ nextIn <= R /\ nextIn \notin Sel /\ nextIn # FailAt
               /\ delivered' = Append(delivered, nextIn) /\ nextIn' = nextIn + 1
-              /\ UNCHANGED <<cphase, jw, pphase, pmark, pbuf, qin, wst, wrow, obuf, qout, fst, frow, fexp, qint, applied, perr>>
+              /\ UNCHANGED <<cphase, jw, pphase, pmark, pbuf, qin, wst, wrow, obuf, qout, fst, frow, fexp, qint, applied, perr, nf, inClosed>>
 CPeekEnd == /\ cphase = "peek" /\ nextIn > R /\ nextIn # FailAt /\ cphase' = "done"
-            /\ UNCHANGED <<nextIn, jw, pphase, pmark, pbuf, qin, wst, wrow, obuf, qout, fst, frow, fexp, qint, delivered, applied, perr>>
+            /\ UNCHANGED <<nextIn, jw, pphase, pmark, pbuf, qin, wst, wrow, obuf, qout, fst, frow, fexp, qint, delivered, applied, perr, nf, inClosed>>
 \* the collector itself reads the rows before the first selected one: a failure there propagates as it is
 CPeekFail == /\ cphase = "peek" /\ nextIn = FailAt /\ cphase' = "failed"
-             /\ UNCHANGED <<nextIn, jw, pphase, pmark, pbuf, qin, wst, wrow, obuf, qout, fst, frow, fexp, qint, delivered, applied, perr>>
-CStart == /\ cphase = "peek" /\ nextIn <= R /\ nextIn \in Sel /\ nextIn # FailAt      \* first selected row: chained back in front, everything starts
-          /\ cphase' = "run" /\ pphase' = "rows" /\ wst' = [w \in W |-> "get"] /\ fst' = "get"
-          /\ UNCHANGED <<nextIn, jw, pmark, pbuf, qin, wrow, obuf, qout, frow, fexp, qint, delivered, applied, perr>>
+             /\ UNCHANGED <<nextIn, jw, pphase, pmark, pbuf, qin, wst, wrow, obuf, qout, fst, frow, fexp, qint, delivered, applied, perr, nf, inClosed>>
+\* first selected row: chained back in front; the PRODUCER THREAD starts (it may run ahead while the collector is still forking)
+CStart == /\ cphase = "peek" /\ nextIn <= R /\ nextIn \in Sel /\ nextIn # FailAt
+          /\ cphase' = "fork" /\ pphase' = "rows"
+          /\ UNCHANGED <<nextIn, jw, pmark, pbuf, qin, wst, wrow, obuf, qout, fst, frow, fexp, qint, delivered, applied, perr, nf, inClosed>>
+\* init_mp: one fork per worker; the child gets the parent's queue handles AS THEY ARE NOW - closed ones stay closed: its first
+\* q_in.get() raises, the worker body swallows that and reports its end
+CFork == /\ cphase = "fork" /\ nf <= N
+         /\ wst' = [wst EXCEPT ![nf] = IF inClosed THEN "exit" ELSE "get"]
+         /\ nf' = nf + 1
+         /\ UNCHANGED <<nextIn, cphase, jw, pphase, pmark, pbuf, qin, wrow, obuf, qout, fst, frow, fexp, qint, delivered, applied, perr, inClosed>>
+\* ... then the fetcher thread; the collector enters its loop
+CStartF == /\ cphase = "fork" /\ nf > N
+           /\ fst' = "get" /\ cphase' = "run"
+           /\ UNCHANGED <<nextIn, jw, pphase, pmark, pbuf, qin, wst, wrow, obuf, qout, frow, fexp, qint, delivered, applied, perr, nf, inClosed>>
 \* ---- producer thread ----
 PPut == /\ pphase = "rows" /\ nextIn <= R /\ nextIn # FailAt   \* next upstream row, routed by the predicate
         /\ nextIn' = nextIn + 1
         /\ IF nextIn \in Sel THEN /\ pbuf' = Append(pbuf, nextIn) /\ UNCHANGED qint
                              ELSE /\ qint' = Append(qint, nextIn) /\ UNCHANGED pbuf
-        /\ UNCHANGED <<cphase, jw, pphase, pmark, qin, wst, wrow, obuf, qout, fst, frow, fexp, delivered, applied, perr>>
+        /\ UNCHANGED <<cphase, jw, pphase, pmark, qin, wst, wrow, obuf, qout, fst, frow, fexp, delivered, applied, perr, nf, inClosed>>
 \* upstream exhausted: N end markers, one put each; the thread ends after the last one
 \* ... or failed: the failure is remembered and the workers are released all the same (finally)
 PMarker == /\ ~(SwallowUpstream /\ pphase = "rows" /\ nextIn = FailAt)
@@ -83,58 +98,63 @@ PMarker == /\ ~(SwallowUpstream /\ pphase = "rows" /\ nextIn = FailAt)
               \/ (pphase = "markers" /\ pmark > 0 /\ pmark' = pmark - 1 /\ UNCHANGED perr)
            /\ pbuf' = Append(pbuf, NONE)
            /\ pphase' = IF pmark' = 0 THEN "done" ELSE "markers"
-           /\ UNCHANGED <<nextIn, cphase, jw, qin, wst, wrow, obuf, qout, fst, frow, fexp, qint, delivered, applied>>
+           /\ UNCHANGED <<nextIn, cphase, jw, qin, wst, wrow, obuf, qout, fst, frow, fexp, qint, delivered, applied, nf, inClosed>>
 \* (deviation, the pinned tree) the failure only ends the collector's loop: no end markers, nothing remembered
 PSwallow == /\ SwallowUpstream /\ pphase = "rows" /\ nextIn = FailAt
             /\ qint' = Append(qint, NONE) /\ pphase' = "done"
-            /\ UNCHANGED <<nextIn, cphase, jw, pmark, pbuf, qin, wst, wrow, obuf, qout, fst, frow, fexp, delivered, applied, perr>>
+            /\ UNCHANGED <<nextIn, cphase, jw, pmark, pbuf, qin, wst, wrow, obuf, qout, fst, frow, fexp, delivered, applied, perr, nf, inClosed>>
+\* (rejected design, ClosesIn = TRUE) the producer calls q_in.close() after the end markers: once the feeder has flushed, BOTH pipe
+\* ends are closed in the parent process (CPython's Queue._feed on the close sentinel)
+PClosed == /\ ClosesIn /\ pphase = "done" /\ pbuf = <<>> /\ ~inClosed
+           /\ inClosed' = TRUE
+           /\ UNCHANGED <<nextIn, cphase, jw, pphase, pmark, pbuf, qin, wst, wrow, obuf, qout, fst, frow, fexp, qint, delivered, applied, perr, nf>>
 FeedIn == /\ pbuf # <<>> /\ qin' = Append(qin, Head(pbuf)) /\ pbuf' = Tail(pbuf)
-          /\ UNCHANGED <<nextIn, cphase, jw, pphase, pmark, wst, wrow, obuf, qout, fst, frow, fexp, qint, delivered, applied, perr>>
+          /\ UNCHANGED <<nextIn, cphase, jw, pphase, pmark, wst, wrow, obuf, qout, fst, frow, fexp, qint, delivered, applied, perr, nf, inClosed>>
 \* ---- workers ----
 WGet(w) == /\ wst[w] = "get" /\ qin # <<>>
            /\ qin' = Tail(qin) /\ wrow' = [wrow EXCEPT ![w] = Head(qin)]
            /\ IF Head(qin) = NONE THEN /\ wst' = [wst EXCEPT ![w] = "exit"] /\ UNCHANGED applied
                                   ELSE /\ wst' = [wst EXCEPT ![w] = "put"]            \* row_func runs right after the get
                                        /\ applied' = IF Head(qin) \in Fail THEN applied ELSE [applied EXCEPT ![Head(qin)] = @ + 1]
-           /\ UNCHANGED <<nextIn, cphase, jw, pphase, pmark, pbuf, obuf, qout, fst, frow, fexp, qint, delivered, perr>>
+           /\ UNCHANGED <<nextIn, cphase, jw, pphase, pmark, pbuf, obuf, qout, fst, frow, fexp, qint, delivered, perr, nf, inClosed>>
 WPut(w) == /\ wst[w] = "put" /\ obuf' = [obuf EXCEPT ![w] = Append(@, wrow[w])]
            /\ wst' = [wst EXCEPT ![w] = "get"] /\ wrow' = [wrow EXCEPT ![w] = 0]
-           /\ UNCHANGED <<nextIn, cphase, jw, pphase, pmark, pbuf, qin, qout, fst, frow, fexp, qint, delivered, applied, perr>>
+           /\ UNCHANGED <<nextIn, cphase, jw, pphase, pmark, pbuf, qin, qout, fst, frow, fexp, qint, delivered, applied, perr, nf, inClosed>>
 WExit(w) == /\ wst[w] = "exit" /\ obuf' = [obuf EXCEPT ![w] = Append(@, NONE)]
             /\ wst' = [wst EXCEPT ![w] = "done"]
-            /\ UNCHANGED <<nextIn, cphase, jw, pphase, pmark, pbuf, qin, wrow, qout, fst, frow, fexp, qint, delivered, applied, perr>>
+            /\ UNCHANGED <<nextIn, cphase, jw, pphase, pmark, pbuf, qin, wrow, qout, fst, frow, fexp, qint, delivered, applied, perr, nf, inClosed>>
 FeedOut(w) == /\ obuf[w] # <<>> /\ qout' = Append(qout, Head(obuf[w])) /\ obuf' = [obuf EXCEPT ![w] = Tail(@)]
-              /\ UNCHANGED <<nextIn, cphase, jw, pphase, pmark, pbuf, qin, wst, wrow, fst, frow, fexp, qint, delivered, applied, perr>>
+              /\ UNCHANGED <<nextIn, cphase, jw, pphase, pmark, pbuf, qin, wst, wrow, fst, frow, fexp, qint, delivered, applied, perr, nf, inClosed>>
 \* ---- fetcher thread ----
 FGet == /\ fst = "get" /\ qout # <<>> /\ qout' = Tail(qout) /\ frow' = Head(qout)
         /\ IF Head(qout) = NONE
              THEN /\ fexp' = fexp - 1 /\ fst' = IF fexp - 1 = 0 THEN "end" ELSE "get"
              ELSE /\ fst' = "fwd" /\ UNCHANGED fexp
-        /\ UNCHANGED <<nextIn, cphase, jw, pphase, pmark, pbuf, qin, wst, wrow, obuf, qint, delivered, applied, perr>>
+        /\ UNCHANGED <<nextIn, cphase, jw, pphase, pmark, pbuf, qin, wst, wrow, obuf, qint, delivered, applied, perr, nf, inClosed>>
 FFwd == /\ fst = "fwd" /\ qint' = Append(qint, frow) /\ fst' = "get"
-        /\ UNCHANGED <<nextIn, cphase, jw, pphase, pmark, pbuf, qin, wst, wrow, obuf, qout, frow, fexp, delivered, applied, perr>>
+        /\ UNCHANGED <<nextIn, cphase, jw, pphase, pmark, pbuf, qin, wst, wrow, obuf, qout, frow, fexp, delivered, applied, perr, nf, inClosed>>
 FEnd == /\ fst = "end" /\ qint' = Append(qint, NONE) /\ fst' = "done"
-        /\ UNCHANGED <<nextIn, cphase, jw, pphase, pmark, pbuf, qin, wst, wrow, obuf, qout, frow, fexp, delivered, applied, perr>>
+        /\ UNCHANGED <<nextIn, cphase, jw, pphase, pmark, pbuf, qin, wst, wrow, obuf, qout, frow, fexp, delivered, applied, perr, nf, inClosed>>
 \* ---- collector after the start ----
 CGet == /\ cphase = "run" /\ qint # <<>> /\ qint' = Tail(qint)
         /\ IF Head(qint) = NONE THEN /\ cphase' = "joinprod" /\ UNCHANGED delivered
                                 ELSE /\ delivered' = Append(delivered, Head(qint)) /\ UNCHANGED cphase
-        /\ UNCHANGED <<nextIn, jw, pphase, pmark, pbuf, qin, wst, wrow, obuf, qout, fst, frow, fexp, applied, perr>>
+        /\ UNCHANGED <<nextIn, jw, pphase, pmark, pbuf, qin, wst, wrow, obuf, qout, fst, frow, fexp, applied, perr, nf, inClosed>>
 CJoinProd == /\ cphase = "joinprod" /\ pphase = "done" /\ cphase' = "joinw"
-             /\ UNCHANGED <<nextIn, jw, pphase, pmark, pbuf, qin, wst, wrow, obuf, qout, fst, frow, fexp, qint, delivered, applied, perr>>
+             /\ UNCHANGED <<nextIn, jw, pphase, pmark, pbuf, qin, wst, wrow, obuf, qout, fst, frow, fexp, qint, delivered, applied, perr, nf, inClosed>>
 CJoinW == /\ cphase = "joinw"
           /\ wst[jw] = "done" /\ obuf[jw] = <<>>                 \* a process exits only after its feeder has flushed
           /\ jw' = jw + 1
           /\ cphase' = IF jw = N THEN "joinf" ELSE "joinw"
-          /\ UNCHANGED <<nextIn, pphase, pmark, pbuf, qin, wst, wrow, obuf, qout, fst, frow, fexp, qint, delivered, applied, perr>>
+          /\ UNCHANGED <<nextIn, pphase, pmark, pbuf, qin, wst, wrow, obuf, qout, fst, frow, fexp, qint, delivered, applied, perr, nf, inClosed>>
 CJoinF == /\ cphase = "joinf" /\ fst = "done" /\ cphase' = (IF perr THEN "failed" ELSE "done")     \* the remembered failure is raised now
-          /\ UNCHANGED <<nextIn, jw, pphase, pmark, pbuf, qin, wst, wrow, obuf, qout, fst, frow, fexp, qint, delivered, applied, perr>>
+          /\ UNCHANGED <<nextIn, jw, pphase, pmark, pbuf, qin, wst, wrow, obuf, qout, fst, frow, fexp, qint, delivered, applied, perr, nf, inClosed>>
 
-Collector == CPeekYield \/ CPeekEnd \/ CPeekFail \/ CStart \/ CGet \/ CJoinProd \/ CJoinW \/ CJoinF
+Collector == CPeekYield \/ CPeekEnd \/ CPeekFail \/ CStart \/ CFork \/ CStartF \/ CGet \/ CJoinProd \/ CJoinW \/ CJoinF
 Producer == PPut \/ PMarker \/ PSwallow
 Fetcher == FGet \/ FFwd \/ FEnd
 Worker(w) == WGet(w) \/ WPut(w) \/ WExit(w)
-Next == Collector \/ Producer \/ FeedIn \/ Fetcher \/ \E w \in W : Worker(w) \/ FeedOut(w)
+Next == Collector \/ Producer \/ FeedIn \/ PClosed \/ Fetcher \/ \E w \in W : Worker(w) \/ FeedOut(w)
 Spec == Init /\ [][Next]_vars
 FairSpec == Spec /\ WF_vars(Collector) /\ WF_vars(Producer) /\ WF_vars(FeedIn) /\ WF_vars(Fetcher)
                  /\ \A w \in W : WF_vars(Worker(w)) /\ WF_vars(FeedOut(w))
